@@ -295,6 +295,40 @@ func NAME(a int, b int) (res int) {
 	return res
 }
 `))
+	// a loop without an init statement, entered straight from the two arms of an if/else that
+	// give the counter different start values: the header has two entry edges, and which one
+	// comes first follows the order in which the source lists the arms
+	n = next()
+	out = append(out, tmpl(n, SigII, true, []string{"multi-entry-loop", "loop-up"}, nil, `func NAME(a int, b int) (res int) {
+	i := 0
+	if a `+c(">=", ">")+` b {
+		i = `+c("1", "a&3")+`
+	} else {
+		i = `+c("3", "b&3", "2")+`
+	}
+	for i < 12 {
+		tick()
+		res += i * 2
+		i++
+	}
+	return res
+}
+`))
+	n = next()
+	out = append(out, tmpl(n, SigSS, true, []string{"multi-entry-loop", "loop-up"}, nil, `func NAME(s string, t string) (res string) {
+	i := 0
+	if s `+c(">=", ">")+` t {
+		i = len(s) & 3
+	} else {
+		i = len(t) & 1
+	}
+	for ; i < 6; i += 2 {
+		tick()
+		res += rep("x", i)
+	}
+	return res
+}
+`))
 	// a loop whose start and limit are a long chain of invariant arithmetic: the rendering of
 	// the recurrence exceeds the length beyond which it is replaced by a digest
 	n = next()
@@ -853,6 +887,62 @@ func NAME(a int, b int) (res int) {
 	}
 	out = append(out, mk("slice-bound-side/low-high", SigXI, []string{"slice-ops"}, sb("xs[:n]"), sb("xs[n:]")))
 	out = append(out, mk("slice-bound-side/three-index", SigXI, []string{"slice-ops"}, sb("xs[n:len(xs)]"), sb("xs[:n:len(xs)]")))
+	// two loop variables with the same start and the same constant, one advanced by addition and
+	// one by multiplication: a use of one replaced by the other
+	gk := func(use string) string {
+		return `func NAME(xs []int, n int) (res int) {
+	j := 1
+	for i := 1; i < n&15; i += 2 {
+		tick()
+		if ` + use + ` < len(xs) {
+			res += xs[` + use + `]
+		}
+		res += ` + use + `
+		j *= 2
+	}
+	return res
+}
+`
+	}
+	out = append(out, mk("iv-kind/additive-vs-geometric", SigXI, []string{"loop-up", "geometric-iv"}, gk("i"), gk("j")))
+	// a deferred / spawned interface method call whose METHOD changes (receiver and arguments
+	// stay): the receiver reaches the function through an unnamed interface type, the only
+	// kind of interface two separately type-checked copies agree on
+	dv := func(stmt string) string {
+		return `type dvNAME struct {
+	p    *int
+	done chan int
+}
+
+func (d dvNAME) Close() error {
+	*d.p += 7
+	d.done <- 1
+	return nil
+}
+
+func (d dvNAME) Flush() error {
+	*d.p *= 3
+	d.done <- 2
+	return nil
+}
+
+func mkNAME(p *int) (interface {
+	Close() error
+	Flush() error
+}, chan int) {
+	c := make(chan int, 8)
+	return dvNAME{p, c}, c
+}
+
+func NAME(a int, b int) (res int) {
+	r, done := mkNAME(&res)
+	res = a - b
+` + stmt + `
+}
+`
+	}
+	out = append(out, mk("deferred-invoke-method/defer", SigII, []string{"defer-invoke"}, dv("\tdefer r.Close()\n\treturn res + 1 + len(done)"), dv("\tdefer r.Flush()\n\treturn res + 1 + len(done)")))
+	out = append(out, mk("deferred-invoke-method/go", SigII, []string{"go-invoke"}, dv("\tgo r.Close()\n\treturn res + 100*<-done"), dv("\tgo r.Flush()\n\treturn res + 100*<-done")))
 	gc := func(e string) string {
 		return `func catNAME[T ~string | ~int](x T, y T) T {
 	return ` + e + `
